@@ -22,6 +22,14 @@ int ST_EXC;
 /* ---- ST_ASSERT: abort() becomes an obligation ------------------------------ */
 #define ST_ASSERT_FAIL(msg) do { __CPROVER_assert(0, msg); __CPROVER_assume(0); } while (0)
 
+/* ---- pointer relational operators: both operands point into (or one before / one past) the same array; the translator
+ * emits the comparison of their signed byte offsets (flat address model; see DESIGN.md 2.3) ------------------------ */
+#ifndef ST_OBJECT_BITS
+#define ST_OBJECT_BITS 10      /* must equal cbmc --object-bits (the runner passes both) */
+#endif
+/* CBMC keeps pointer offsets in 64 - object_bits bits; `base - 1` has all of them set: sign-extend from that width */
+#define ST_PTR_OFF(p) (((ssize_t)((size_t)__CPROVER_POINTER_OFFSET(p) << ST_OBJECT_BITS)) >> ST_OBJECT_BITS)
+
 /* ---- ghost state ------------------------------------------------------------
  * GI0, GI1: arbitrary positions ("for every index" in conclusions); the harness
  * sets them to nondeterministic values once.  ST_LIVE counts live heap blocks
@@ -130,12 +138,19 @@ TR_CMP(uint16_t, uint16_t, char16_t)
 TR_CMP(uint32_t, uint32_t, char32_t)
 TR_CMP(int32_t, int32_t, wchar_t)
 /* find: first position holding c, or NULL; every earlier position differs (known at the probe pointer TRF_PROBE) */
+/* trim: membership of a byte in the character set TRIM_CHARSET is an uninterpreted predicate; find() on that pointer
+ * answers it (a C-string character set never contains NUL) */
+const char *TRIM_CHARSET; size_t TRIM_L, TRIM_R;
+_Bool __CPROVER_uninterpreted_member(char c);
+#define IN_SET(c) ((c) != 0 && __CPROVER_uninterpreted_member(c))
 const char *TRF_PROBE; const char *TRF_S, *TRF_RET; size_t TRF_N; char TRF_C; int TRF_CALLS;   /* arguments / result of the last call, for forwarding postconditions */
 const char *tr_find_char(const char *s, size_t n, char c) {
     __CPROVER_assert(n == 0 || __CPROVER_r_ok(s, n), "tr_find.precondition: range readable for n elements");
     size_t k = nondet_size_t();
     TRF_S = s; TRF_N = n; TRF_C = c; TRF_CALLS++;
-    if (nondet_bool() || n == 0) {
+    _Bool none = nondet_bool() || n == 0;
+    if (TRIM_CHARSET != (const char *)0 && s == TRIM_CHARSET) __CPROVER_assume(none == !IN_SET(c));
+    if (none) {
         __CPROVER_assume(!(__CPROVER_same_object(TRF_PROBE, s) && TRF_PROBE >= s && TRF_PROBE < s + n) || *TRF_PROBE != c);
         TRF_RET = (const char *)0;
         return (const char *)0;
